@@ -280,3 +280,26 @@ Proof.
   destruct (field_value_sound n (b_addr b) a f Hw F) as [R1 R2].
   exists o, a, b, f. repeat split; try assumption; lia.
 Qed.
+
+(* ---------- no address is occupied twice in a well-formed program ---------- *)
+Theorem wf_cells_nodup p : typed p = true -> wf p = true -> NoDup (map fst (spec_cells p)).
+Proof.
+  intros T W. pose proof (assemble_plain_spec p T) as S.
+  destruct (assemble false None p) as [o|k sp|]; [|rewrite (wf_no_violation p k W) in S; discriminate|contradiction].
+  destruct S as [_ [L [st [OK [HI EB]]]]]. unfold spec_cells.
+  pose proof (i2_map _ _ _ HI) as MI.
+  pose proof (i2_cells _ _ _ HI) as CE. rewrite (ok_closed _ _ OK), app_nil_r in CE. rewrite <- CE.
+  rewrite <- (flat_map_bcells_filter (fst (ref_run (bindings p) p))).
+  apply (Permutation_NoDup (l := map fst (flat_map bcells (map strip (p2_map st))))); [|apply map_cells_nodup; exact MI].
+  apply Permutation_map. apply Permutation_flat_map. exact (i2_perm _ _ _ HI).
+Qed.
+
+Theorem pass1_ok src p sym : typed p = true -> pass1 p src = AOk sym -> P1ok p (st_labels sym).
+Proof.
+  intros T E. pose proof (pass1_nodebug p T) as P. destruct src as [text|].
+  - pose proof (pass1_dbg text p) as D. destruct (pass1 p None) as [sym0|k sp|].
+    + destruct D as [D|[m D]]; [congruence|]. rewrite D in E. injection E as <-. exact (proj1 P).
+    + destruct D as [D|D]; congruence.
+    + congruence.
+  - rewrite E in P. exact (proj1 P).
+Qed.
